@@ -183,9 +183,11 @@ package ast
 //@   ensures[usable] bl.err == nil ==> result != nil && ref(result) != 0
 //@   ensures[same-stack] bl.currentStack == old(bl.currentStack)
 //@ func (*ToBoltListener).popBinaryOperand
-//@   props C10
+//@   props C10 C11
 //@   modifies bl.currentStack.values, bl.err
 //@   ensures[latch] old(bl.err) != nil ==> bl.err != nil
+//@   ensures[no-error-means-one-popped] bl.err == nil ==> old(len(bl.currentStack.values)) > 0 && len(bl.currentStack.values) == old(len(bl.currentStack.values)) - 1
+//@   ensures[rest-kept] forall(i, 0 <= i && i < len(bl.currentStack.values) ==> bl.currentStack.values[i] == old(bl.currentStack.values[i]))
 //@ func (*ToBoltListener).popSetFunction
 //@   props C10
 //@   modifies bl.currentStack.values, bl.err
@@ -475,7 +477,10 @@ package ast
 //@   modifies *
 //@   ensures[paging-clauses-kept] result1 == nil ==> istype(result0, *queryNode) && as(result0, *queryNode).Limit == old(node.limit) && as(result0, *queryNode).Skip == old(node.skip) && as(result0, *queryNode).SortBy == old(node.sortBy)
 //@ func (*ToBoltListener).ExitStringArray
-//@   props C10
+//@   props C10 C11
+//@   invariant 1: len(arrayNode.values) + len(bl.currentStack.values) == old(len(bl.currentStack.values)) && forall(i, 0 <= i && i < len(bl.currentStack.values) ==> bl.currentStack.values[i] == old(bl.currentStack.values[i]))
+//@   invariant 1: forall(i, 0 <= i && i < len(arrayNode.values) ==> arrayNode.values[i] == old(bl.currentStack.values[len(bl.currentStack.values) - 1 - i]))
+//@   ensures[the-list-holds-the-literals-as-parsed] old(bl.err) == nil && bl.err == nil ==> len(bl.currentStack.values) >= 1 && istype(bl.currentStack.values[len(bl.currentStack.values) - 1], *StringArrayNode) && len(as(bl.currentStack.values[len(bl.currentStack.values) - 1], *StringArrayNode).values) == old(len(bl.currentStack.values)) && forall(i, 0 <= i && i < old(len(bl.currentStack.values)) ==> as(bl.currentStack.values[len(bl.currentStack.values) - 1], *StringArrayNode).values[i] == old(bl.currentStack.values[len(bl.currentStack.values) - 1 - i]))
 //@   assume forall(i, 0 <= i && i < len(bl.currentStack.values) ==> istype(bl.currentStack.values[i], StringNode))
 //@   modifies *
 //@   invariant 1: bl.err == nil && bl.currentStack == old(bl.currentStack) && bl.stacks != nil && arrayNode != nil && fresh(arrayNode)
@@ -501,9 +506,72 @@ package ast
 //@   invariant 2: arrayNode != nil && fresh(arrayNode) && forall(i, 0 <= i && i < len(arrayNode.values) ==> arrayNode.values[i] != nil)
 //@   invariant 3: arrayNode != nil && fresh(arrayNode) && forall(i, 0 <= i && i < len(arrayNode.values) ==> arrayNode.values[i] != nil)
 //@ func (*ToBoltListener).ExitBinaryOp
-//@   props C10
+//@   props C10 C11
 //@   assume len(bl.currentStack.values) > 0 ==> !istype(bl.currentStack.values[len(bl.currentStack.values)-1], *SetFunctionNode)
 //@   modifies *
+//@   ensures[operands-are-the-nodes-as-parsed] old(bl.err) == nil && bl.err == nil ==> old(len(bl.currentStack.values)) >= 3 && len(bl.currentStack.values) == old(len(bl.currentStack.values)) - 2 && istype(bl.currentStack.values[len(bl.currentStack.values) - 1], *BinaryExprNode) && as(bl.currentStack.values[len(bl.currentStack.values) - 1], *BinaryExprNode).right == old(bl.currentStack.values[len(bl.currentStack.values) - 1]) && as(bl.currentStack.values[len(bl.currentStack.values) - 1], *BinaryExprNode).left == old(bl.currentStack.values[len(bl.currentStack.values) - 3])
+// every binary operator hands its two operands to the expression node exactly as they were parsed (no re-reading, trimming or
+// re-escaping of a literal on the way)
+//@ func (*ToBoltListener).ExitBinaryLessThanStringOp
+//@   props C10 C11
+//@   assume len(bl.currentStack.values) > 0 ==> !istype(bl.currentStack.values[len(bl.currentStack.values)-1], *SetFunctionNode)
+//@   modifies *
+//@   ensures[operands-are-the-nodes-as-parsed] old(bl.err) == nil && bl.err == nil ==> old(len(bl.currentStack.values)) >= 3 && len(bl.currentStack.values) == old(len(bl.currentStack.values)) - 2 && istype(bl.currentStack.values[len(bl.currentStack.values) - 1], *BinaryExprNode) && as(bl.currentStack.values[len(bl.currentStack.values) - 1], *BinaryExprNode).right == old(bl.currentStack.values[len(bl.currentStack.values) - 1]) && as(bl.currentStack.values[len(bl.currentStack.values) - 1], *BinaryExprNode).left == old(bl.currentStack.values[len(bl.currentStack.values) - 3])
+//@ func (*ToBoltListener).ExitBinaryGreaterThanStringOp
+//@   props C10 C11
+//@   assume len(bl.currentStack.values) > 0 ==> !istype(bl.currentStack.values[len(bl.currentStack.values)-1], *SetFunctionNode)
+//@   modifies *
+//@   ensures[operands-are-the-nodes-as-parsed] old(bl.err) == nil && bl.err == nil ==> old(len(bl.currentStack.values)) >= 3 && len(bl.currentStack.values) == old(len(bl.currentStack.values)) - 2 && istype(bl.currentStack.values[len(bl.currentStack.values) - 1], *BinaryExprNode) && as(bl.currentStack.values[len(bl.currentStack.values) - 1], *BinaryExprNode).right == old(bl.currentStack.values[len(bl.currentStack.values) - 1]) && as(bl.currentStack.values[len(bl.currentStack.values) - 1], *BinaryExprNode).left == old(bl.currentStack.values[len(bl.currentStack.values) - 3])
+//@ func (*ToBoltListener).ExitBinaryLessThanNumberOp
+//@   props C10 C11
+//@   assume len(bl.currentStack.values) > 0 ==> !istype(bl.currentStack.values[len(bl.currentStack.values)-1], *SetFunctionNode)
+//@   modifies *
+//@   ensures[operands-are-the-nodes-as-parsed] old(bl.err) == nil && bl.err == nil ==> old(len(bl.currentStack.values)) >= 3 && len(bl.currentStack.values) == old(len(bl.currentStack.values)) - 2 && istype(bl.currentStack.values[len(bl.currentStack.values) - 1], *BinaryExprNode) && as(bl.currentStack.values[len(bl.currentStack.values) - 1], *BinaryExprNode).right == old(bl.currentStack.values[len(bl.currentStack.values) - 1]) && as(bl.currentStack.values[len(bl.currentStack.values) - 1], *BinaryExprNode).left == old(bl.currentStack.values[len(bl.currentStack.values) - 3])
+//@ func (*ToBoltListener).ExitBinaryLessThanDatetimeOp
+//@   props C10 C11
+//@   assume len(bl.currentStack.values) > 0 ==> !istype(bl.currentStack.values[len(bl.currentStack.values)-1], *SetFunctionNode)
+//@   modifies *
+//@   ensures[operands-are-the-nodes-as-parsed] old(bl.err) == nil && bl.err == nil ==> old(len(bl.currentStack.values)) >= 3 && len(bl.currentStack.values) == old(len(bl.currentStack.values)) - 2 && istype(bl.currentStack.values[len(bl.currentStack.values) - 1], *BinaryExprNode) && as(bl.currentStack.values[len(bl.currentStack.values) - 1], *BinaryExprNode).right == old(bl.currentStack.values[len(bl.currentStack.values) - 1]) && as(bl.currentStack.values[len(bl.currentStack.values) - 1], *BinaryExprNode).left == old(bl.currentStack.values[len(bl.currentStack.values) - 3])
+//@ func (*ToBoltListener).ExitBinaryGreaterThanNumberOp
+//@   props C10 C11
+//@   assume len(bl.currentStack.values) > 0 ==> !istype(bl.currentStack.values[len(bl.currentStack.values)-1], *SetFunctionNode)
+//@   modifies *
+//@   ensures[operands-are-the-nodes-as-parsed] old(bl.err) == nil && bl.err == nil ==> old(len(bl.currentStack.values)) >= 3 && len(bl.currentStack.values) == old(len(bl.currentStack.values)) - 2 && istype(bl.currentStack.values[len(bl.currentStack.values) - 1], *BinaryExprNode) && as(bl.currentStack.values[len(bl.currentStack.values) - 1], *BinaryExprNode).right == old(bl.currentStack.values[len(bl.currentStack.values) - 1]) && as(bl.currentStack.values[len(bl.currentStack.values) - 1], *BinaryExprNode).left == old(bl.currentStack.values[len(bl.currentStack.values) - 3])
+//@ func (*ToBoltListener).ExitBinaryGreaterThanDatetimeOp
+//@   props C10 C11
+//@   assume len(bl.currentStack.values) > 0 ==> !istype(bl.currentStack.values[len(bl.currentStack.values)-1], *SetFunctionNode)
+//@   modifies *
+//@   ensures[operands-are-the-nodes-as-parsed] old(bl.err) == nil && bl.err == nil ==> old(len(bl.currentStack.values)) >= 3 && len(bl.currentStack.values) == old(len(bl.currentStack.values)) - 2 && istype(bl.currentStack.values[len(bl.currentStack.values) - 1], *BinaryExprNode) && as(bl.currentStack.values[len(bl.currentStack.values) - 1], *BinaryExprNode).right == old(bl.currentStack.values[len(bl.currentStack.values) - 1]) && as(bl.currentStack.values[len(bl.currentStack.values) - 1], *BinaryExprNode).left == old(bl.currentStack.values[len(bl.currentStack.values) - 3])
+//@ func (*ToBoltListener).ExitBinaryEqualToStringOp
+//@   props C10 C11
+//@   assume len(bl.currentStack.values) > 0 ==> !istype(bl.currentStack.values[len(bl.currentStack.values)-1], *SetFunctionNode)
+//@   modifies *
+//@   ensures[operands-are-the-nodes-as-parsed] old(bl.err) == nil && bl.err == nil ==> old(len(bl.currentStack.values)) >= 3 && len(bl.currentStack.values) == old(len(bl.currentStack.values)) - 2 && istype(bl.currentStack.values[len(bl.currentStack.values) - 1], *BinaryExprNode) && as(bl.currentStack.values[len(bl.currentStack.values) - 1], *BinaryExprNode).right == old(bl.currentStack.values[len(bl.currentStack.values) - 1]) && as(bl.currentStack.values[len(bl.currentStack.values) - 1], *BinaryExprNode).left == old(bl.currentStack.values[len(bl.currentStack.values) - 3])
+//@ func (*ToBoltListener).ExitBinaryEqualToNumberOp
+//@   props C10 C11
+//@   assume len(bl.currentStack.values) > 0 ==> !istype(bl.currentStack.values[len(bl.currentStack.values)-1], *SetFunctionNode)
+//@   modifies *
+//@   ensures[operands-are-the-nodes-as-parsed] old(bl.err) == nil && bl.err == nil ==> old(len(bl.currentStack.values)) >= 3 && len(bl.currentStack.values) == old(len(bl.currentStack.values)) - 2 && istype(bl.currentStack.values[len(bl.currentStack.values) - 1], *BinaryExprNode) && as(bl.currentStack.values[len(bl.currentStack.values) - 1], *BinaryExprNode).right == old(bl.currentStack.values[len(bl.currentStack.values) - 1]) && as(bl.currentStack.values[len(bl.currentStack.values) - 1], *BinaryExprNode).left == old(bl.currentStack.values[len(bl.currentStack.values) - 3])
+//@ func (*ToBoltListener).ExitBinaryEqualToDatetimeOp
+//@   props C10 C11
+//@   assume len(bl.currentStack.values) > 0 ==> !istype(bl.currentStack.values[len(bl.currentStack.values)-1], *SetFunctionNode)
+//@   modifies *
+//@   ensures[operands-are-the-nodes-as-parsed] old(bl.err) == nil && bl.err == nil ==> old(len(bl.currentStack.values)) >= 3 && len(bl.currentStack.values) == old(len(bl.currentStack.values)) - 2 && istype(bl.currentStack.values[len(bl.currentStack.values) - 1], *BinaryExprNode) && as(bl.currentStack.values[len(bl.currentStack.values) - 1], *BinaryExprNode).right == old(bl.currentStack.values[len(bl.currentStack.values) - 1]) && as(bl.currentStack.values[len(bl.currentStack.values) - 1], *BinaryExprNode).left == old(bl.currentStack.values[len(bl.currentStack.values) - 3])
+//@ func (*ToBoltListener).ExitBinaryEqualToBoolOp
+//@   props C10 C11
+//@   assume len(bl.currentStack.values) > 0 ==> !istype(bl.currentStack.values[len(bl.currentStack.values)-1], *SetFunctionNode)
+//@   modifies *
+//@   ensures[operands-are-the-nodes-as-parsed] old(bl.err) == nil && bl.err == nil ==> old(len(bl.currentStack.values)) >= 3 && len(bl.currentStack.values) == old(len(bl.currentStack.values)) - 2 && istype(bl.currentStack.values[len(bl.currentStack.values) - 1], *BinaryExprNode) && as(bl.currentStack.values[len(bl.currentStack.values) - 1], *BinaryExprNode).right == old(bl.currentStack.values[len(bl.currentStack.values) - 1]) && as(bl.currentStack.values[len(bl.currentStack.values) - 1], *BinaryExprNode).left == old(bl.currentStack.values[len(bl.currentStack.values) - 3])
+//@ func (*ToBoltListener).ExitBinaryEqualToNullOp
+//@   props C10 C11
+//@   assume len(bl.currentStack.values) > 0 ==> !istype(bl.currentStack.values[len(bl.currentStack.values)-1], *SetFunctionNode)
+//@   modifies *
+//@   ensures[operands-are-the-nodes-as-parsed] old(bl.err) == nil && bl.err == nil ==> old(len(bl.currentStack.values)) >= 3 && len(bl.currentStack.values) == old(len(bl.currentStack.values)) - 2 && istype(bl.currentStack.values[len(bl.currentStack.values) - 1], *BinaryExprNode) && as(bl.currentStack.values[len(bl.currentStack.values) - 1], *BinaryExprNode).right == old(bl.currentStack.values[len(bl.currentStack.values) - 1]) && as(bl.currentStack.values[len(bl.currentStack.values) - 1], *BinaryExprNode).left == old(bl.currentStack.values[len(bl.currentStack.values) - 3])
+//@ func (*ToBoltListener).ExitBinaryContainsOp
+//@   props C10 C11
+//@   assume len(bl.currentStack.values) > 0 ==> !istype(bl.currentStack.values[len(bl.currentStack.values)-1], *SetFunctionNode)
+//@   modifies *
+//@   ensures[operands-are-the-nodes-as-parsed] old(bl.err) == nil && bl.err == nil ==> old(len(bl.currentStack.values)) >= 3 && len(bl.currentStack.values) == old(len(bl.currentStack.values)) - 2 && istype(bl.currentStack.values[len(bl.currentStack.values) - 1], *BinaryExprNode) && as(bl.currentStack.values[len(bl.currentStack.values) - 1], *BinaryExprNode).right == old(bl.currentStack.values[len(bl.currentStack.values) - 1]) && as(bl.currentStack.values[len(bl.currentStack.values) - 1], *BinaryExprNode).left == old(bl.currentStack.values[len(bl.currentStack.values) - 3])
 //@ func (*ToBoltListener).pushSetFunction
 //@   props C10
 //@   assume len(bl.currentStack.values) > 1 && istype(bl.currentStack.values[len(bl.currentStack.values)-2], SetFunction) ==> 0 <= as(bl.currentStack.values[len(bl.currentStack.values)-2], SetFunction) && as(bl.currentStack.values[len(bl.currentStack.values)-2], SetFunction) <= 3
@@ -531,6 +599,16 @@ package ast
 //@   pure
 //@ func (TypeSeekableSetCursor).SeekToString
 //@   modifies curPos[self]
+// the seek shortcut of anyOf(set) = literal: the seek only positions the cursor; whether the element it lands on
+// satisfies the predicate is still the predicate's own answer (a longer element with the literal as prefix does not)
+//@ func (*BinaryStringExprNode).EvalBoolWithSeek
+//@   props C01
+//@   nosafety
+//@   modifies *
+//@   ensures[true-only-as-the-predicate's-own-answer-at-the-sought-position] result ==> called(EvalBool, 1)
+//@   lensures[the-answer-at-the-sought-position-is-the-predicate's-own] called(EvalBool, 1) ==> result == ret(EvalBool, 1)
+//@   callpre[seeks-to-the-literal] SeekToString@1: recv == cursor && arg0 == *ret(EvalString, 1)
+//@   callpre[evaluates-itself-on-the-row's-symbols] EvalBool@1: recv == node && arg0 == s
 
 // The symbol validator is driven by Accept in traversal order: a sub-query's symbol is visited between its
 // Start and End callbacks, so the saved symbol tables are there when End pops them.
